@@ -265,6 +265,21 @@ func c11At(d *Defs, doc JV, path string) string {
 			}
 		}
 	}
+	// a collection whose element is a REFERENCE to a scalar definition (`#Link: string`, `[string]: #Link`):
+	// the element kind is `ref`, not `scalar`, for the Python jenny — spell the element `alias(<type>)`
+	if n != nil && (n.Kind == SArray || n.Kind == SDict) && n.Elem != nil && n.Elem.Kind == SRef {
+		if r := d.resolve(n.Elem); r != nil {
+			switch r.Kind {
+			case SAny, SBool, SString, SConst, SInt, SNum:
+				if i := strings.LastIndex(at, "/"); i >= 0 {
+					seg := at[i+1:]
+					if j := strings.Index(seg, "("); j >= 0 && strings.HasSuffix(seg, ")") {
+						at = at[:i+1] + seg[:j+1] + "alias(" + seg[j+1:] + ")"
+					}
+				}
+			}
+		}
+	}
 	if n != nil && n.Kind != SConst && c11OneValued(n) {
 		if i := strings.LastIndex(at, "/"); i >= 0 {
 			return at[:i+1] + "const(" + at[i+1:] + ")"
